@@ -62,7 +62,8 @@ POOLS = [
     [('LAGT', ['Lag', 'Time'], 'sec'), ('DAYC', ['Day', 'Count'], 'ddmmyy'), ('TOFF', ['Time', 'Offset'], 'hhmmss')],
 ]
 SEPS = [(' ', ' '), ('\t', ' '), ('  ', ' '), ('\t', '\t')]
-FLOATS = [('0', 0.0), ('8.50', 8.5), ('3131.07', 3131.07), ('269999', 269999.0), ('0.7', 0.7), ('10.00', 10.0), ('1.1976', 1.1976)]
+FLOATS = [('0', 0.0), ('8.50', 8.5), ('3131.07', 3131.07), ('269999', 269999.0), ('0.7', 0.7), ('10.00', 10.0), ('1.1976', 1.1976),
+          ('1e-05', 1e-05), ('-2.5', -2.5)]       # what repr() / %g write for small and for negative numbers
 TIMES = [(11, 50, 17), (0, 0, 5), (23, 59, 59), (7, 8, 9)]
 NDATE = 12
 BIG = '99999999999999999999'
@@ -279,6 +280,25 @@ def observe_can(text):
         return ('exception', type(err).__name__, str(err))
 
 
+def same_handle_history(text, first):
+    from TotalDepth.DAT import DAT_parser
+    f = io.StringIO(text)
+    out = []
+    try:
+        DAT_parser.can_parse_file(f)
+        a = extract(DAT_parser.parse_file(f))
+        b = extract(DAT_parser.parse_file(f))
+    except Exception as err:  # noqa
+        return [({'kind': 'same_handle_history_raises', 'exc': type(err).__name__},
+                 'can_parse_file(f), parse_file(f), parse_file(f) on one file object: %s: %s\ntext: %s' % (type(err).__name__, err, _show(text)))]
+    for which, o in (('first', a), ('second', b)):
+        if repr(o) != repr(first):
+            out.append(({'kind': 'same_handle_history_differs'},
+                        'the %s parse_file(f) after can_parse_file(f) on the same file object differs from a parse of a fresh one\ntext: %s' % (which, _show(text))))
+            break
+    return out
+
+
 def _show(text):
     return repr(text if len(text) < 700 else text[:700] + '...')
 
@@ -320,6 +340,9 @@ def judge(text, exp):
         elif exp['frames'] >= 1 and can[1] is not True:
             bad.append(({'kind': 'can_parse_false_on_valid'},
                         'can_parse_file returned %r for a valid file with %d rows\ntext: %s' % (can[1], exp['frames'], _show(text))))
+        if obs[0] == 'ok':
+            # one file object used the way a tool uses it: asked whether it can be parsed, parsed, and parsed again
+            bad.extend(same_handle_history(text, obs[1]))
         return bad, outcome
 
     if ref.status == 'outside':
